@@ -730,10 +730,12 @@ class Interp:
             return None
         g = gens[gi]
         it = self.eval(g.iter, fr)
-        items = self.try_iter_concrete(it)
+        from .builtins_model import SymZip, SymEnumerate
+        items = self.try_iter_concrete(it) if not isinstance(it, (Z, SymZip, SymEnumerate)) else None
         if items is None:
             if gi == 0 and len(gens) == 1 and kind == "list":
-                return self.symbolic_comprehension(node, g, it, fr)
+                from .comp import build_comprehension
+                return build_comprehension(self, node, g, it, fr)
             raise Unsupported(f"comprehension over a symbolic sequence (nested / dict) at line {node.lineno}")
         for x in items:
             self.assign_target(g.target, x, fr)
@@ -832,7 +834,8 @@ class Interp:
             if k is object:
                 break
             if name in k.__dict__:
-                return k.__dict__[name]
+                v = k.__dict__[name]
+                return _NONE_ATTR if v is None else v
         return None
 
     def get_attr(self, obj, name):
@@ -888,6 +891,8 @@ class Interp:
         raise Unsupported(f"attribute {name} of {type(obj).__name__}")
 
     def bind_class_attr(self, raw, inst, cls, via=None):
+        if raw is _NONE_ATTR:
+            return C(None)
         if isinstance(raw, property):
             if inst is None:
                 return C(raw)
@@ -1004,6 +1009,11 @@ class Interp:
             if isinstance(x, types.MethodType) and self.program.node_of(x.__func__) is not None:
                 return self.call_function(x.__func__, [self.wrap(x.__self__)] + args, kwargs)
             return call_builtin(self, x, args, kwargs)
+        if isinstance(f, SObj):
+            cf = self.class_lookup(f.cls, "__call__")
+            if cf is None:
+                raise PyRaise("TypeError", msg="object is not callable")
+            return self.call_function(cf, [f] + args, kwargs)
         if isinstance(f, Z):
             from .builtins_model import call_symbolic_function
             return call_symbolic_function(self, f, args, kwargs)
@@ -1024,12 +1034,21 @@ class Interp:
 
     def bind_params(self, a, args, kwargs, env, fname):
         """CPython's argument binding (positional, keyword, defaults, *args, **kwargs); mismatches raise TypeError."""
-        if any(isinstance(x, StarArgs) for x in args) or "**" in kwargs:
-            raise Unsupported(f"call of {fname} with symbolic * / ** arguments")
         pos = [p.arg for p in a.posonlyargs + a.args]
         defaults = a.defaults
         kwargs = dict(kwargs)
         n = len(pos)
+        sym_star = None
+        if any(isinstance(x, StarArgs) for x in args):
+            # a symbolic *tuple is accepted only as the tail that lands entirely in the callee's own *args
+            i = next(i for i, x in enumerate(args) if isinstance(x, StarArgs))
+            if i < n or a.vararg is None or any(isinstance(x, StarArgs) for x in args[i + 1:]):
+                raise Unsupported(f"call of {fname} with a symbolic * argument feeding named parameters")
+            sym_star = (args[n:i], args[i].v, args[i + 1:])
+            args = args[:n]
+        sym_kw = kwargs.pop("**", None)
+        if sym_kw is not None and (a.kwarg is None or any(k not in pos for k in kwargs)):
+            raise Unsupported(f"call of {fname} with a symbolic ** argument feeding named parameters")
         if len(args) > n and a.vararg is None:
             raise PyRaise("TypeError", msg=f"{fname}() takes {n} positional arguments but {len(args)} were given")
         for i, p in enumerate(pos):
@@ -1046,7 +1065,14 @@ class Interp:
                 else:
                     raise PyRaise("TypeError", msg=f"{fname}() missing required positional argument {p!r}")
         if a.vararg is not None:
-            env[a.vararg.arg] = LTuple(args[n:])
+            if sym_star is not None:
+                pre, mid, post = sym_star
+                mid_seq = self.seq_of(mid) if not isinstance(mid, Z) else V.seq_items(mid.t)
+                parts = ([V.mk_seq([self.to_z(x) for x in pre])] if pre else []) + [mid_seq] + (
+                    [V.mk_seq([self.to_z(x) for x in post])] if post else [])
+                env[a.vararg.arg] = ZSeq(z3.Concat(*parts) if len(parts) > 1 else parts[0], "tuple")
+            else:
+                env[a.vararg.arg] = LTuple(args[n:])
         for p, d in zip(a.kwonlyargs, a.kw_defaults):
             if p.arg in kwargs:
                 env[p.arg] = kwargs.pop(p.arg)
@@ -1054,7 +1080,11 @@ class Interp:
                 env[p.arg] = self.eval(d, Frame(None, {}, self._cur_globals, None))
             else:
                 raise PyRaise("TypeError", msg=f"{fname}() missing keyword-only argument {p.arg!r}")
-        if a.kwarg is not None:
+        if a.kwarg is not None and sym_kw is not None:
+            if kwargs:
+                raise Unsupported(f"call of {fname}: explicit keywords together with a symbolic ** mapping")
+            env[a.kwarg.arg] = sym_kw
+        elif a.kwarg is not None:
             env[a.kwarg.arg] = LDict([(C(k), v) for k, v in kwargs.items()])
         elif kwargs:
             raise PyRaise("TypeError", msg=f"{fname}() got an unexpected keyword argument {next(iter(kwargs))!r}")
@@ -1069,7 +1099,7 @@ class Interp:
             return call_builtin(self, f, args, kwargs)
         qn = f"{f.__module__}:{f.__qualname__}"
         con = self.contracts.get(qn)
-        if con is not None and qn != self.verifying and not force_inline and not con.inline:
+        if con is not None and qn != (self.verifying or "").split("#")[0] and not force_inline and not con.inline:
             from .contract_apply import apply_contract
             self.contract_calls.add(qn)
             return apply_contract(self, con, f, args, kwargs)
@@ -1427,6 +1457,13 @@ class StarArgs:
 class ConcreteIter:
     def __init__(self, items):
         self.items = items
+
+
+class _NoneAttr:
+    """A class attribute whose value is None (distinguished from 'no such attribute')."""
+
+
+_NONE_ATTR = _NoneAttr()
 
 
 class _Unbound:
